@@ -952,7 +952,7 @@ fn unique_labels(guesses: &[String]) -> Vec<String> {
 }
 fn rustfmt(body: &str) -> String {
     let src = format!("fn __w() {{\n{}\n}}\n", body);
-    let child = Command::new("rustfmt").args(["--edition", "2021", "--config", "max_width=160,fn_call_width=150,chain_width=150,single_line_if_else_max_width=0"]).stdin(Stdio::piped()).stdout(Stdio::piped()).stderr(Stdio::piped()).spawn();
+    let child = Command::new("rustfmt").args(["--edition", "2021", "--config", "max_width=1000,fn_call_width=900,chain_width=900,single_line_if_else_max_width=0"]).stdin(Stdio::piped()).stdout(Stdio::piped()).stderr(Stdio::piped()).spawn();
     if let Ok(mut ch) = child {
         ch.stdin.as_mut().unwrap().write_all(src.as_bytes()).ok();
         if let Ok(out) = ch.wait_with_output() {
